@@ -100,6 +100,8 @@ def case_sexp(c):
         parts.append("(schedule %s)" % " ".join(str(k) for k in c["schedule"]))
     if c.get("text"):
         parts.append("(text)")
+    if c.get("parse_only"):
+        parts.append("(parse_only)")
     if "modules" in c:
         parts.append("(modules %s)" % " ".join("(%s %s)" % (p, m) for p, m in c["modules"]))
     else:
